@@ -237,8 +237,15 @@ func (q *TransmitLimitedQueue) deleteItem(cur *limitedBroadcast) {
 	if cur.name != "" {
 		delete(q.tm, cur.name)
 	}
+}
 
-	if q.tq.Len() == 0 {
+// resetIDGenIfIdle restarts the id generator once the queue is empty. It must
+// only be called when no item is held out of the tree (for re-insertion or
+// about to be added), otherwise a restarted id could collide with the id of
+// such an item and one of the two would silently replace the other. You must
+// already hold the mutex.
+func (q *TransmitLimitedQueue) resetIDGenIfIdle() {
+	if q.lenLocked() == 0 {
 		// At idle there's no reason to let the id generator keep going
 		// indefinitely.
 		q.idGen = 0
@@ -357,6 +364,7 @@ func (q *TransmitLimitedQueue) GetBroadcasts(overhead, limit int) [][]byte {
 	for _, cur := range reinsert {
 		q.addItem(cur)
 	}
+	q.resetIDGenIfIdle()
 
 	return toSend
 }
@@ -408,4 +416,5 @@ func (q *TransmitLimitedQueue) Prune(maxRetain int) {
 		cur.b.Finished()
 		q.deleteItem(cur)
 	}
+	q.resetIDGenIfIdle()
 }
